@@ -13,6 +13,8 @@ import (
 	"strings"
 	"unicode"
 
+	"golang.org/x/tools/go/ast/astutil"
+	"golang.org/x/tools/go/packages"
 	"golang.org/x/tools/go/ssa"
 )
 
@@ -456,6 +458,15 @@ func c04R2(c *Ctx, p *Prog) {
 		}
 		ast.Inspect(decl.Body, func(n ast.Node) bool {
 			switch x := n.(type) {
+			case *ast.IfStmt:
+				// fast path as a table: if e, ok := table[unit]; ok { return e.unit, e.factor }
+				rows, why := c04FastTable(pk, fn, x)
+				if why != "" {
+					c.Undecided(R, "fast:table", p.pos(x.Pos()), why)
+				}
+				for _, r := range rows {
+					fast = append(fast, fastRow{keys: []string{r.key}, unit: r.unit, factor: r.factor, pos: r.pos})
+				}
 			case *ast.CallExpr:
 				// strings.Contains(unit, "lit")
 				if se, ok := x.Fun.(*ast.SelectorExpr); ok {
@@ -1347,4 +1358,197 @@ func isTidyUnit(fn *ssa.Function, v ssa.Value, depth int) bool {
 		}
 	}
 	return false
+}
+
+type c04TableRow struct {
+	key, unit string
+	factor    *big.Rat
+	pos       token.Pos
+}
+
+// c04FastTable: `if e, ok := table[param]; ok { return e.f1, e.f2 }` with table a package-level map from string to a
+// struct of one string and one float, initialised by a composite literal of constants and only ever read by indexing.
+// Returns the rows of the literal; why != "" when the statement has this shape but a part cannot be read.
+func c04FastTable(pk *packages.Package, fn *ssa.Function, ifs *ast.IfStmt) (rows []c04TableRow, why string) {
+	info := pk.TypesInfo
+	as, ok := ifs.Init.(*ast.AssignStmt)
+	if !ok || len(as.Lhs) != 2 || len(as.Rhs) != 1 {
+		return nil, ""
+	}
+	ix, ok := as.Rhs[0].(*ast.IndexExpr)
+	if !ok {
+		return nil, ""
+	}
+	tid, ok := ix.X.(*ast.Ident)
+	if !ok {
+		return nil, ""
+	}
+	tv, ok := info.Uses[tid].(*types.Var)
+	if !ok || tv.Parent() != pk.Types.Scope() {
+		return nil, ""
+	}
+	mt, ok := tv.Type().Underlying().(*types.Map)
+	if !ok || !isString(mt.Key()) {
+		return nil, ""
+	}
+	// indexed by a parameter of the function
+	pid, ok := ix.Index.(*ast.Ident)
+	if !ok {
+		return nil, ""
+	}
+	isParam := false
+	for i := 0; i < fn.Signature.Params().Len(); i++ {
+		if info.Uses[pid] == fn.Signature.Params().At(i) {
+			isParam = true
+		}
+	}
+	if !isParam {
+		return nil, ""
+	}
+	st, ok := mt.Elem().Underlying().(*types.Struct)
+	if !ok {
+		return nil, ""
+	}
+	strF, numF := -1, -1
+	for i := 0; i < st.NumFields(); i++ {
+		switch {
+		case isString(st.Field(i).Type()) && strF < 0:
+			strF = i
+		case isFloat(st.Field(i).Type()) && numF < 0:
+			numF = i
+		default:
+			return nil, "the fast-path table's rows have more than one text and one factor"
+		}
+	}
+	if strF < 0 || numF < 0 {
+		return nil, ""
+	}
+	// the guarded body returns the row's text and factor, in the order of the function's results
+	okID, _ := as.Lhs[1].(*ast.Ident)
+	condID, _ := ifs.Cond.(*ast.Ident)
+	eID, _ := as.Lhs[0].(*ast.Ident)
+	if okID == nil || condID == nil || eID == nil || info.Uses[condID] != info.Defs[okID] {
+		return nil, "the fast-path table lookup is not guarded by its own ok result"
+	}
+	good := false
+	for _, s := range ifs.Body.List {
+		rs, ok := s.(*ast.ReturnStmt)
+		if !ok || len(rs.Results) != 2 {
+			continue
+		}
+		a, ok1 := rs.Results[0].(*ast.SelectorExpr)
+		b, ok2 := rs.Results[1].(*ast.SelectorExpr)
+		if !ok1 || !ok2 {
+			continue
+		}
+		ax, _ := a.X.(*ast.Ident)
+		bx, _ := b.X.(*ast.Ident)
+		if ax == nil || bx == nil || info.Uses[ax] != info.Defs[eID] || info.Uses[bx] != info.Defs[eID] {
+			continue
+		}
+		if info.Uses[a.Sel] == st.Field(strF) && info.Uses[b.Sel] == st.Field(numF) {
+			good = true
+		}
+	}
+	if !good {
+		return nil, "the fast-path table lookup does not return the row's text and factor"
+	}
+	// every other use of the table in the package is a read by indexing
+	for id, obj := range info.Uses {
+		if obj != tv || id == tid {
+			continue
+		}
+		readOnly := false
+		for _, f := range pk.Syntax {
+			if f.Pos() <= id.Pos() && id.Pos() < f.End() {
+				path, _ := astutil.PathEnclosingInterval(f, id.Pos(), id.End())
+				if len(path) >= 2 {
+					if ie, ok := path[1].(*ast.IndexExpr); ok && ie.X == ast.Expr(id) {
+						readOnly = true
+						if len(path) >= 3 {
+							if as2, ok := path[2].(*ast.AssignStmt); ok {
+								for _, l := range as2.Lhs {
+									if l == ast.Expr(ie) {
+										readOnly = false
+									}
+								}
+							}
+							if _, ok := path[2].(*ast.IncDecStmt); ok {
+								readOnly = false
+							}
+						}
+					}
+				}
+			}
+		}
+		if !readOnly {
+			return nil, "the fast-path table " + tv.Name() + " is used other than by reading an entry: its rows cannot be taken from its initialiser"
+		}
+	}
+	// the initialiser
+	var lit *ast.CompositeLit
+	for _, f := range pk.Syntax {
+		for _, d := range f.Decls {
+			gd, ok := d.(*ast.GenDecl)
+			if !ok {
+				continue
+			}
+			for _, sp := range gd.Specs {
+				vs, ok := sp.(*ast.ValueSpec)
+				if !ok {
+					continue
+				}
+				for i, nm := range vs.Names {
+					if info.Defs[nm] == tv && i < len(vs.Values) {
+						lit, _ = vs.Values[i].(*ast.CompositeLit)
+					}
+				}
+			}
+		}
+	}
+	if lit == nil {
+		return nil, "the fast-path table " + tv.Name() + " is not initialised by a literal"
+	}
+	for _, el := range lit.Elts {
+		kv, ok := el.(*ast.KeyValueExpr)
+		if !ok {
+			return nil, "unreadable row in " + tv.Name()
+		}
+		ktv := info.Types[kv.Key]
+		rl, ok := kv.Value.(*ast.CompositeLit)
+		if ktv.Value == nil || !ok {
+			return nil, "unreadable row in " + tv.Name()
+		}
+		row := c04TableRow{key: constant.StringVal(ktv.Value), pos: kv.Pos()}
+		for i, fe := range rl.Elts {
+			fi := i
+			val := fe
+			if fkv, ok := fe.(*ast.KeyValueExpr); ok {
+				val = fkv.Value
+				fi = -1
+				if id, ok := fkv.Key.(*ast.Ident); ok {
+					for j := 0; j < st.NumFields(); j++ {
+						if info.Uses[id] == st.Field(j) {
+							fi = j
+						}
+					}
+				}
+			}
+			vtv := info.Types[val]
+			if vtv.Value == nil {
+				return nil, "row " + row.key + " of " + tv.Name() + " is not constant"
+			}
+			switch fi {
+			case strF:
+				row.unit = constant.StringVal(vtv.Value)
+			case numF:
+				row.factor = ratOfConst(vtv.Value)
+			}
+		}
+		if row.factor == nil {
+			return nil, "row " + row.key + " of " + tv.Name() + " has no factor"
+		}
+		rows = append(rows, row)
+	}
+	return rows, ""
 }
